@@ -223,6 +223,8 @@ def make_string_type(prj, rng, name, cap, used_ids):
 def _assign_ids(prj, rng, t, used_ids, predefined=False):
     while True:
         tid = rng.randrange(0xF00, 0x1000) if predefined else rng.randrange(0x100, 0xF00)
+        if rng.random() < 0.15:  # the ends of the user / predefined template-id ranges
+            tid = rng.choice([0xF00, 0xF01, 0xFFF] if predefined else [0x100, 0x101, 0xEFE, 0xEFF])
         if tid not in used_ids["template"]:
             used_ids["template"].add(tid)
             break
